@@ -229,7 +229,7 @@ func c12MultiWriterElems(v ssa.Value) ([]ssa.Value, bool) {
 }
 
 func runC12(c *Ctx) {
-	fns := c.P.FuncsOfPkg(c11Pkg)
+	fns := c11FuncsOfPkg(c.P, c11Pkg)
 	if len(fns) == 0 {
 		c.LostAnchor("C12.R1.descriptor-describes-bytes", "package ~/"+c11Pkg)
 		return
@@ -254,6 +254,7 @@ func c12R5(c *Ctx, fns []*ssa.Function) {
 	const R5 = "C12.R5.sanitisers-do-not-over-reject"
 	c.Expect(R5, 1) // the two sanitisers may share one predicate helper
 	for _, f := range fns {
+		c12R5CutForms(c, R5, f)
 		n := 0
 		for _, call := range Calls(f, func(nm string) bool {
 			switch nm {
@@ -275,6 +276,52 @@ func c12R5(c *Ctx, fns []*ssa.Function) {
 			c.Check(R5, key, call.Pos(), good, ifelse(good, "prefix test with \"..\" followed by a separator: only names below the parent directory are rejected",
 				CalleeName(call)+" with the bare constant "+strconvQuote(k)+" also rejects legal names that merely start with (or contain) two dots, e.g. \"..data\" or \"...\": a directory containing such an entry cannot be unpacked / such a named blob cannot be pushed"))
 		}
+	}
+}
+
+// c12R5CutForms: the same predicate written with strings.Cut / strings.CutPrefix.
+//
+//	first, _, _ := strings.Cut(rel, "/"); first == ".."                       — exact
+//	rest, ok := strings.CutPrefix(rel, ".."); ok && (rest == "" || rest[0] == '/')   — exact only with the separator test on rest
+func c12R5CutForms(c *Ctx, R5 string, f *ssa.Function) {
+	AllInstrs(f, func(in ssa.Instruction) {
+		bo, ok := in.(*ssa.BinOp)
+		if !ok || (bo.Op != token.EQL && bo.Op != token.NEQ) {
+			return
+		}
+		if k, isK := constString(bo.Y); isK && k == ".." && c11IsFirstComponent(bo.X) {
+			c.OK(R5, FnName(f)+"|dotdot-test:first-component", bo.Pos(), "the first path component is compared with \"..\": only \"..\" and names below \"../\" are rejected")
+		}
+	})
+	for _, cp := range CallsTo(f, "strings.CutPrefix") {
+		k, isK := constString(cp.Common().Args[1])
+		if !isK || !strings.Contains(k, "..") {
+			continue
+		}
+		good := k == "../" || k == `..\`
+		if k == ".." {
+			if rest := ResultOf(cp, 0); rest != nil {
+				ra := Aliases(rest)
+				sepTest := false
+				AllInstrs(f, func(in ssa.Instruction) {
+					switch x := in.(type) {
+					case *ssa.BinOp:
+						if ix, isIx := x.X.(*ssa.Index); isIx && ra[ix.X] {
+							if sep, isSep := constInt(x.Y); isSep && (sep == '/' || sep == '\\') {
+								sepTest = true
+							}
+						}
+					case *ssa.Call:
+						if CalleeName(x) == "strings.HasPrefix" && ra[x.Call.Args[0]] {
+							sepTest = true
+						}
+					}
+				})
+				good = sepTest
+			}
+		}
+		c.Check(R5, FnName(f)+"|dotdot-test:strings.CutPrefix", cp.Pos(), good, ifelse(good, "CutPrefix(rel, \"..\") followed by a separator test on the rest: only \"..\" and names below \"../\" are rejected",
+			"CutPrefix with the bare constant "+strconvQuote(k)+" and no separator test on the rest also rejects legal names that merely start with two dots"))
 	}
 }
 
@@ -441,6 +488,74 @@ func c12TypeflagTest(cond ssa.Value) (k int64, eq bool, ok bool) {
 	return 0, false, false
 }
 
+// c12TypeflagMembership: cond is slices.Contains(<constant byte set>, header.Typeflag);
+// the set may be a local literal or a package-level variable initialised with a literal.
+func c12TypeflagMembership(cond ssa.Value) (map[int64]bool, bool) {
+	call, ok := cond.(*ssa.Call)
+	if !ok || CalleeName(call) != "slices.Contains" || len(call.Call.Args) != 2 {
+		return nil, false
+	}
+	if _, _, isTF := c12TypeflagTest(&ssa.BinOp{Op: token.EQL, X: call.Call.Args[1], Y: ssa.NewConst(constant.MakeInt64(0), types.Typ[types.Byte])}); !isTF {
+		return nil, false
+	}
+	set := map[int64]bool{}
+	collect := func(v ssa.Value) bool {
+		var els []ssa.Value
+		c11SliceElems(v, &els)
+		if len(els) == 0 {
+			return false
+		}
+		for _, e := range els {
+			k, isK := constInt(e)
+			if !isK {
+				return false
+			}
+			set[k] = true
+		}
+		return true
+	}
+	for _, r := range Roots(call.Call.Args[0]) {
+		if _, isSlice := r.(*ssa.Slice); isSlice {
+			if !collect(r) {
+				return nil, false
+			}
+			continue
+		}
+		ld, isLoad := r.(*ssa.UnOp)
+		if !isLoad || ld.Op != token.MUL {
+			return nil, false
+		}
+		g, isGlobal := ld.X.(*ssa.Global)
+		if !isGlobal || g.Pkg == nil {
+			return nil, false
+		}
+		found := false
+		if initFn := g.Pkg.Func("init"); initFn != nil {
+			AllInstrs(initFn, func(in ssa.Instruction) {
+				if st, isStore := in.(*ssa.Store); isStore && st.Addr == ssa.Value(g) {
+					if collect(st.Val) {
+						found = true
+					}
+				}
+			})
+		}
+		// never reassigned elsewhere in the package
+		for _, m := range g.Pkg.Members {
+			if mf, isFn := m.(*ssa.Function); isFn && mf.Name() != "init" {
+				AllInstrs(mf, func(in ssa.Instruction) {
+					if st, isStore := in.(*ssa.Store); isStore && st.Addr == ssa.Value(g) {
+						found = false
+					}
+				})
+			}
+		}
+		if !found {
+			return nil, false
+		}
+	}
+	return set, len(set) > 0
+}
+
 // c12ChmodSkipped explores fn from just behind instruction `from`.
 func c12ChmodSkipped(fns []*ssa.Function, flags map[*ssa.Function]map[ssa.Value]bool, fn *ssa.Function, from ssa.Instruction, path ssa.Value, handleTuple ssa.Value, kind *int64, depth int) (bool, string) {
 	// the entry kind: a Typeflag == k edge dominating the site
@@ -486,7 +601,21 @@ func c12ChmodSkipped(fns []*ssa.Function, flags map[*ssa.Function]map[ssa.Value]
 		}
 	}
 	okRets := map[ssa.Instruction]bool{}
-	if ErrResultIndex(fn.Signature) >= 0 {
+	isYield := false
+	if fn.Parent() != nil {
+		for _, rf := range c11RangeFuncs(fn.Parent()) {
+			if rf.Yield == fn {
+				isYield = true
+			}
+		}
+	}
+	if isYield {
+		// the body of a range-over-func loop: `return true` is the next entry, `return false` leaves the loop (error / break)
+		cont, _ := c11YieldReturns(fn)
+		for _, r := range cont {
+			okRets[r] = true
+		}
+	} else if ErrResultIndex(fn.Signature) >= 0 {
 		for _, a := range c11SuccessAtoms(fn) {
 			okRets[a.Ret] = true
 		}
@@ -579,6 +708,8 @@ func c12ChmodSkipped(fns []*ssa.Function, flags map[*ssa.Function]map[ssa.Value]
 				if k, eq, ok := c12TypeflagTest(cond); ok && kind != nil {
 					holds := (k == *kind) == eq
 					takeT, takeF = holds, !holds
+				} else if set, ok := c12TypeflagMembership(cond); ok && kind != nil {
+					takeT, takeF = set[*kind], !set[*kind]
 				} else if v, known := resolve(cond, phis); known {
 					takeT, takeF = v, !v
 				}
@@ -2114,6 +2245,12 @@ func c12R4(c *Ctx, fns []*ssa.Function) {
 		n++
 		tol := []string{"~/errdef.ErrNotFound", "~/content/file.ErrDuplicateName"}
 		r := ErrFlow(call, ErrFlowOpts{Tolerated: tol})
+		if !r.OK && call.Parent() == RD {
+			// the tolerance test may be a boolean helper (isBenign(err)) instead of inline errors.Is tests
+			if ok, how := c12ErrFlowWithPredicates(call, tol); ok {
+				r.OK, r.How = true, how
+			}
+		}
 		if call.Parent() != RD && ErrResultIndex(call.Parent().Signature) < 0 {
 			// inside the yield closure of a range-over-func loop
 			r.OK, r.Detail = c12ErrSurfacesFromYield(call, tol)
@@ -2352,6 +2489,100 @@ func c12R4EveryNamedSuccessor(c *Ctx, R4 string, RD *ssa.Function, rdCallees map
 	if ok {
 		c.OK(R4, key, blockPos(it.Entry), "every path through the loop body that skips the restore step is decided only by the successor's title (empty / already exists)")
 	}
+}
+
+// c12PredicateTolerates: for an in-module helper P(err) bool, the result
+// polarities pol for which "P(err) == pol" implies that err is one of the
+// tolerated sentinels (errors.Is / ==).
+func c12PredicateTolerates(P *ssa.Function, argIdx int, tolerated []string) map[bool]bool {
+	out := map[bool]bool{}
+	if argIdx >= len(P.Params) || len(P.Blocks) == 0 {
+		return out
+	}
+	al := Aliases(P.Params[argIdx])
+	tolE := toleratedEdges(P, al, tolerated)
+	tolSet := map[string]bool{}
+	for _, t := range tolerated {
+		tolSet[t] = true
+	}
+	isTolTest := func(v ssa.Value) bool {
+		call, ok := v.(*ssa.Call)
+		return ok && CalleeName(call) == "errors.Is" && len(call.Call.Args) == 2 && al[call.Call.Args[0]] && tolSet[sentinelName(call.Call.Args[1])]
+	}
+	for _, pol := range []bool{true, false} {
+		ok, any := true, false
+		for _, a := range RetAtoms(P, 0) {
+			if k, isConst := a.Val.(*ssa.Const); isConst && k.Value != nil {
+				if constant.BoolVal(k.Value) != pol {
+					continue
+				}
+			} else if pol && isTolTest(a.Val) {
+				any = true
+				continue // returns the tolerance test itself
+			}
+			any = true
+			if !pol || len(tolE) == 0 || !AtomMustPass(a, newCut().Edges(tolE...)) {
+				ok = false
+			}
+		}
+		if ok && any {
+			out[pol] = true
+		}
+	}
+	return out
+}
+
+// c12ErrFlowWithPredicates: like ErrFlow with tolerated sentinels, where the
+// tolerance may be decided by a boolean helper taking the error.
+func c12ErrFlowWithPredicates(call ssa.CallInstruction, tolerated []string) (bool, string) {
+	fn := call.Parent()
+	errIdx := ErrResultIndex(fn.Signature)
+	e := ErrOf(call)
+	if e == nil || errIdx < 0 {
+		return false, ""
+	}
+	al := Aliases(e)
+	_, nonNil, _ := NilTests(fn, al)
+	if len(nonNil) == 0 {
+		return false, ""
+	}
+	cutT := newCut().Edges(toleratedEdges(fn, al, tolerated)...)
+	cutT.Instr(call.(ssa.Instruction))
+	helper := ""
+	for _, i := range Ifs(fn) {
+		cond, t, f := ifEdges(i)
+		pc, ok := cond.(*ssa.Call)
+		if !ok {
+			continue
+		}
+		P := StaticCallee(pc)
+		if P == nil || !inModule(P) || P.Signature.Results().Len() != 1 {
+			continue
+		}
+		for k, a := range pc.Call.Args {
+			if !al[a] {
+				continue
+			}
+			pols := c12PredicateTolerates(P, k, tolerated)
+			if pols[true] {
+				cutT.Edges(t)
+				helper = FnName(P)
+			}
+			if pols[false] {
+				cutT.Edges(f)
+				helper = FnName(P)
+			}
+		}
+	}
+	if helper == "" {
+		return false, ""
+	}
+	for _, ne := range nonNil {
+		if bad := findNilReturnFrom(fn, ne, errIdx, cutT, al); bad != nil {
+			return false, ""
+		}
+	}
+	return true, "tested; every failure path returns a non-nil error (tolerated, as decided by " + helper + ": " + strings.Join(tolerated, ", ") + ")"
 }
 
 // c12ErrSurfacesFromYield: inside the yield closure of a range-over-func loop an
